@@ -72,6 +72,11 @@ def cells(tier):
                 for first_ok in (1, None):
                     out.append(dict(kind=kind, n=n, first_ok=first_ok, fkind="exception", pol="zero", recurring=False,
                                     forced=None, dev=True))
+        # the process east / west of UTC
+        for tz in (9, -5):
+            for recurring in (False, True):
+                out.append(dict(kind=kind, n=2, first_ok=None, fkind="exception", pol="user", recurring=recurring,
+                                forced=None, tz=tz))
         for n in (0, 1, 2):
             for api in ("retry", "force_retry", "force_then_fail"):
                 out.append(dict(kind=kind, n=n, first_ok=None, fkind="exception", pol="f1", recurring=False, forced=api))
@@ -79,6 +84,13 @@ def cells(tier):
 
 
 def execute(cell, deviations=None):
+    from ..vloop import local_zone
+
+    with local_zone(cell.get("tz", 0)):  # due times of retries are naive local stamps
+        return _execute(cell, deviations)
+
+
+def _execute(cell, deviations=None):
     pol = policy_of(cell["pol"])
     n = cell["n"]
     total_wait = sum(pol(k).total_seconds() for k in range(1, n + 4)) + (n + 3) * TIMEOUT
